@@ -168,6 +168,20 @@ example : ∀ s ∈ ([.decl (.struct [.int, .array 2 (.struct [.int, .ptr .int])
   rcases hs with rfl | rfl | rfl | rfl | rfl | rfl | rfl | rfl | rfl | rfl | rfl | rfl <;>
     simp [wfStmt, Ctx.kind, Expr.var]
 
+/-- RECEIVER-EVALUATION RULE of the table: the receiver of a method value, of `defer x.M()` and of `go x.M()` is copied at
+    binding time, the automatic dereference of a pointer operand creates nothing — so (by `value_semantics`) binding
+    through a pointer operand, mutating the pointee, then invoking the bound method twice behaves as in Go. -/
+theorem bound_receiver_rule :
+    cloneAt .methodValue = true ∧ cloneAt .deferRecv = true ∧ cloneAt .goRecv = true ∧ cloneAt .deref = false ∧
+    ∀ c ∈ [Ctx.methodValue, Ctx.deferRecv, Ctx.goRecv],
+      runJS cloneAt [.decl (.struct [.int]), .setLeaf 0 [0] 1, .bind c (.via .deref (.loc 0 [])), .setLeaf 0 [0] 2,
+                     .bind .boundCall (.loc 1 []), .dump 2, .setLeaf 2 [0] 9, .bind .boundCall (.loc 1 []), .dump 3, .dump 0]
+        = [[1], [1], [2]] := by
+  refine ⟨rfl, rfl, rfl, rfl, ?_⟩
+  intro c hc
+  simp only [List.mem_cons, List.not_mem_nil, or_false] at hc
+  rcases hc with rfl | rfl | rfl <;> decide
+
 /-! ## Pointers (model GV.Model.Ptr: pointer objects = cached `$get/$set` pairs closed over a cell; pointers to
     array/struct storage = the object itself) -/
 open GV.Ptr
